@@ -243,6 +243,10 @@ def dictSet {κ ν : Type} [DecidableEq κ] (d : Dict κ ν) (k : κ) (v : ν) :
 
 /-! ### builtins -/
 
+/-- `dict(pairs)`: a NEW dict; a later pair with the same key overwrites the value (the key keeps its place) -/
+def dictOfPairs {κ ν : Type} [DecidableEq κ] (ps : List (κ × ν)) : Dict κ ν :=
+  ps.foldl (fun d p => dictSet d p.1 p.2) []
+
 /-- the loop of `max(xs, key=key)`: a later item replaces the current best only when its key is strictly larger -/
 def maxLoop {α κ : Type} [LT κ] [DecidableLT κ] (key : α → κ) (best : α) : List α → α
   | [] => best
